@@ -84,6 +84,10 @@ def lex_case(s):
             "obs": {"lex": obs}, "nontrivial": False, "tags": ["lex", obs[0]]}
 
 
+class TypeMismatch(Exception):
+    pass
+
+
 def range_case(desc, probes):
     try:
         r = ranges.Range(desc)
@@ -94,9 +98,22 @@ def range_case(desc, probes):
         else:
             verdicts = [verdict(r, v) for v in probes]
             obs = {"kind": "range", "items": [list(i) for i in r.items], "lower": r.lower_limit, "upper": r.upper_limit, "verdicts": verdicts}
+            # a range is a value: what other code does with it (an Integer field derives its value range from a length,
+            # messages print it) leaves its items, limits and verdicts as they are
+            before = (obs["items"], obs["lower"], obs["upper"], verdicts, str(r))
+            try:
+                ranges.create_range_from_length(r)
+            except Exception:  # noqa - lengths that make no sense are refused; the argument must still be untouched
+                pass
+            after = ([list(i) for i in r.items], r.lower_limit, r.upper_limit, [verdict(r, v) for v in probes], str(r))
+            if after != before:
+                obs = {"kind": "mutated", "what": "after create_range_from_length(range) the range %r is %r, before %r" % (desc, after[:3], before[:3])}
+                raise TypeMismatch(obs["what"])
             coq = "(RRange %s %s %s %s)" % (L(r.items, lambda i: P(O(i[0], Zn), O(i[1], Zn))), O(r.lower_limit, Zn), O(r.upper_limit, Zn), L(verdicts, B))
     except errors.InterfaceError:
         obs, coq = {"kind": "interface"}, "RInterface"
+    except TypeMismatch as e:
+        obs, coq = {"kind": "mutated", "what": str(e)}, "RLeak"
     except Exception as e:  # noqa
         obs, coq = {"kind": "leak", "type": type(e).__name__}, "RLeak"
     return {"coq": P("(RangeCase %s %s)" % (S(desc), L(probes, Zn)), coq), "obs": obs,
@@ -119,10 +136,6 @@ def dec_tuple(d):
 def coq_dec(d):
     neg, coef, exp = dec_tuple(d)
     return "(mkdec (%s, %d%%N, %s))" % (B(neg), coef, Zn(exp))
-
-
-class TypeMismatch(Exception):
-    pass
 
 
 def dec_case(desc, probes):
@@ -186,6 +199,8 @@ def direct_oracle(inp, obs):
         upper = None if obs["upper"] == "None" else D(obs["upper"])
     else:
         probes = inp["probes"]
+        if obs["kind"] == "mutated":
+            return obs["what"]
         if obs["kind"] != "range":
             return "well-formed range %r was not accepted (%s)" % (inp["desc"], obs)
         items, lower, upper = obs["items"], obs["lower"], obs["upper"]
